@@ -319,6 +319,8 @@ def run_property(prop, tier, seed, only=None, replay_meta=None):
     for ksig, e in sorted(known_seen.items()):
         lines.append("KNOWN-FINDING: property=%s %s [%s] (observed %d×)" % (prop, e["what"], ksig, e["count"]))
     rdir = os.path.join(VERIF, "replay", prop)
+    if replay_meta is None and repo == "/repo":
+        shutil.rmtree(rdir, ignore_errors=True)  # replay files describe the latest run only
     for v in new_viol:
         os.makedirs(rdir, exist_ok=True)
         path = os.path.join(rdir, sanitize(v["sig"]) + ".json")
